@@ -123,6 +123,8 @@ def _fe04_case(draw):
     return {'t': 'fe04', 'layout': lay, 'frontend': draw(st.sampled_from(frontends.ALL)),
             'raise_in': draw(st.sampled_from(['validate', 'getValues', 'setValues'])),
             'exc': draw(st.sampled_from(['RuntimeError', 'KeyError', 'ValueError', 'IOError'])),
+            # shape of the exception the datastore raises: one argument, none, several (OSError(errno, text)), non-string, a custom class
+            'exc_args': draw(st.sampled_from(['one', 'one', 'none', 'two', 'three', 'tuple', 'custom', 'percent'])),
             'request': step, 'uid': draw(st.integers(1, 247)), 'tid': draw(gens.u16())}
 
 
@@ -312,8 +314,33 @@ def _run_fe04(case):
     kind, f = case['request']
     fe = case['frontend']
     labels = ['fe04', 'frontend:' + fe, 'raise_in:' + case['raise_in']]
-    exc_cls = {'RuntimeError': RuntimeError, 'KeyError': KeyError, 'ValueError': ValueError, 'IOError': IOError}[case['exc']]
+    exc_base = {'RuntimeError': RuntimeError, 'KeyError': KeyError, 'ValueError': ValueError, 'IOError': IOError}[case['exc']]
     which = case['raise_in']
+    shape = case.get('exc_args', 'one')
+    labels.append('exception-args:' + shape)
+
+    class StoreFault(Exception):
+        def __init__(self, table, address):
+            Exception.__init__(self, table, address)
+            self.table, self.address = table, address
+
+        def __str__(self):
+            return 'table %s address %d' % (self.table, self.address)
+
+    def exc_cls(text):
+        if shape == 'none':
+            return exc_base()
+        if shape == 'two':
+            return exc_base(5, text)
+        if shape == 'three':
+            return exc_base(5, text, 'x')
+        if shape == 'tuple':
+            return exc_base((1, 2))
+        if shape == 'custom':
+            return StoreFault('h', 7)
+        if shape == 'percent':
+            return exc_base('100% %s %d')
+        return exc_base(text)
 
     class Failing(ModbusSlaveContext):
         calls = []
